@@ -20,7 +20,7 @@ ASSUMPTIONS = ["no verdict depends on a reply being fast: a slow 'deliver' only 
                "server-side execution counts are read after the server has handled every forwarded request (5 s watchdog, expiry = inconclusive)"]
 REQUIRED_REACH = ["calls_own_reply", "calls_comm_error", "faults_applied", "oneway_calls", "recovered_after_faults", "exactly_once_tokens", "retries_observed", "seq_wraps"]
 SHARD_TIMEOUT = {"quick": 240, "thorough": 3000}
-KINDS = ["echo", "echo", "echo", "boom", "pyroboom", "oneway", "batch", "attr", "stream", "batchow", "batchmix"]
+KINDS = ["echo", "echo", "echo", "boom", "pyroboom", "oneway", "batch", "attr", "stream", "batchow", "batchmix", "onewaybad"]
 
 
 class ServerLog:
@@ -162,6 +162,9 @@ def run_history(fx, slog, rl, rec, r, retries, ncalls, script, sername, hh):
                     outcome = ("ret", p.pyroboom(tok))
                 elif kind == "oneway":
                     outcome = ("ret", p.fire(tok))
+                elif kind == "onewaybad":
+                    # a oneway request the daemon cannot dispatch (no such member): still no reply, still None
+                    outcome = ("ret", p._pyroInvoke(r.choice(["no_such_member", "_private", "echo.x"]), (tok,), {}, flags=P.protocol.FLAGS_ONEWAY))
                 elif kind == "batch":
                     b = shared_batch if reuse_batch else P.client.BatchProxy(p)
                     b.echo(tok)
@@ -221,7 +224,7 @@ def run_history(fx, slog, rl, rec, r, retries, ncalls, script, sername, hh):
             durations[tok] = time.monotonic() - t_call
             if p._pyroSeq < seq_before:
                 rec.count("seq_wraps")
-            if kind in ("oneway", "batchow") and outcome and outcome[0] == "ret":
+            if kind in ("oneway", "batchow", "onewaybad") and outcome and outcome[0] == "ret":
                 # the caller has moved on before the relay handles its request: wait (bounded) until the relay has recorded what it did with it
                 fx.wait_until(lambda: any(a[0] == tok for a in rl.applied[applied_before:]), 2.0)
             faulted = any(a[1] not in ("deliver", "deliver-oneway") for a in rl.applied[applied_before:])
@@ -236,7 +239,7 @@ def run_history(fx, slog, rl, rec, r, retries, ncalls, script, sername, hh):
             elif outcome[0] == "comm" and clean and not faulted:
                 bad = ("fault-free-call-failed", "call %s (%s) failed with %s although no fault was applied to it and the call before it (%s) had completed cleanly" % (
                     tok, kind, outcome[1], kinds[-2] if len(kinds) > 1 else "-"))
-            if kind in ("oneway", "batchow"):
+            if kind in ("oneway", "batchow", "onewaybad"):
                 clean = clean and not faulted          # reads no reply: cannot clear what an earlier fault left in the stream
             else:
                 clean = (not faulted) and outcome[0] in ("ret", "exc")
@@ -270,7 +273,7 @@ def run_history(fx, slog, rl, rec, r, retries, ncalls, script, sername, hh):
                     bad = ("foreign-reply-accepted", "call echo(%s) returned %r" % (tok, v))
                 elif kind in ("boom", "pyroboom"):
                     bad = ("foreign-reply-accepted", "call %s(%s) returned %r instead of raising" % (kind, tok, v))
-                elif kind in ("oneway", "batchow"):
+                elif kind in ("oneway", "batchow", "onewaybad"):
                     if v is not None:
                         bad = ("oneway-returned-something", "%s call returned %r" % (kind, v))
                     rec.count("oneway_calls")
@@ -330,12 +333,12 @@ def run_history(fx, slog, rl, rec, r, retries, ncalls, script, sername, hh):
         return
     # ---- exactly-once accounting at quiescence
     want_handled = sum(rl.forwarded.get(t, 0) for t, k in tokens if k != "attr")
-    settled = fx.wait_until(lambda: all(slog.exec.get(t, 0) >= min(1, rl.forwarded.get(t, 0)) for t, k in tokens if k not in ("attr", "stream")), 5.0)
+    settled = fx.wait_until(lambda: all(slog.exec.get(t, 0) >= min(1, rl.forwarded.get(t, 0)) for t, k in tokens if k not in ("attr", "stream", "onewaybad")), 5.0)
     time.sleep(0.02)
     for tok, kind in tokens:
         fw, rc = rl.forwarded.get(tok, 0), rl.received.get(tok, 0)
         ex = slog.exec.get(tok, 0)
-        if kind in ("attr",):
+        if kind in ("attr", "onewaybad"):
             continue
         if kind == "stream":
             if ex > fw:
